@@ -15,6 +15,7 @@ import Rare.Proofs.C01Colour
 import Rare.Proofs.C01Readers
 import Rare.Proofs.C01Order
 import Rare.Proofs.C01FilterLine
+import Rare.Proofs.C01Batches
 import Rare.Model.C01Source
 import Rare.Gen.C01
 /-!
@@ -967,6 +968,39 @@ theorem single_worker_file_order (cls : Line → Cls) (R B K batchSize : Nat) (d
       | some d => simp [hd] at hp; rw [← hp]
     have : x.src ≠ i := by rw [hsrc, hp2]; exact hj
     simpa using this
+
+/-- What travels on the match channel, for ANY number of workers, readers, capacities and ANY schedule: every batch
+    waiting on `ReadChan()` at any reachable state is non-empty and is exactly the matched lines, IN ORDER, of ONE
+    input batch (`b.filter matched` for a batch `b` of some source) - workers may overtake each other
+    (`two_workers_reorder_counterexample`), but a delivered batch never mixes lines of two input batches and never
+    reorders or drops matched lines inside one; and a busy worker's `matchBatch` so far, followed by the matches
+    among the lines it still has to process, is the matched part of the batch it is walking. -/
+theorem pipeline_match_batches {α : Type} (cls : α → Cls) (R B K W : Nat) (inputs : List (List (List α))) (s : St α)
+    (hr : Reach cls R B K (init inputs W) s) :
+    (∀ mb ∈ s.rc, mb ≠ [] ∧ ∃ src ∈ inputs, ∃ b ∈ src, mb = b.filter (isMatched cls)) ∧
+    (∀ (j : Nat) (todo acc : List α), s.workers[j]? = some (WSt.busy todo acc) →
+      ∃ src ∈ inputs, ∃ b ∈ src, acc ++ todo.filter (isMatched cls) = b.filter (isMatched cls)) := by
+  have hi := batchInv_reach cls inputs W hr
+  constructor
+  · intro mb hmb
+    obtain ⟨h1, b, hb, he⟩ := hi.rc mb hmb
+    obtain ⟨src, hsrc, hbs⟩ := List.mem_flatten.mp hb
+    exact ⟨h1, src, hsrc, b, hbs, he⟩
+  · intro j todo acc hj
+    obtain ⟨b, hb, he⟩ := hi.workers j todo acc hj
+    obtain ⟨src, hsrc, hbs⟩ := List.mem_flatten.mp hb
+    exact ⟨src, hsrc, b, hbs, he⟩
+
+/-- non-vacuity of `pipeline_match_batches`: a reachable state (two workers, the second has just sent) with a batch
+    waiting on the match channel while the other worker is still inside its batch; line 3 is not matched. -/
+example : ∃ s, Reach (fun n : Nat => if n = 3 then Cls.unmatched else Cls.matched) 1 2 5 (init [[[1, 3], [3, 2, 4]]] 2) s ∧
+    s.rc = [[2, 4]] ∧ s.workers[0]? = some (WSt.busy [3] [1]) := by
+  have h : applyAll (fun n : Nat => if n = 3 then Cls.unmatched else Cls.matched) 1 2 5 (init [[[1, 3], [3, 2, 4]]] 2)
+      [.start 0, .send 0, .send 0, .wrecv 0, .wrecv 1, .wproc 1, .wproc 1, .wproc 1, .wproc 0, .wsend 1] =
+      some { srcs := [.active []], c := [], cClosed := false, workers := [.busy [3] [1], .idle], rc := [[2, 4]], rcClosed := false,
+             consumed := [], consDone := false, processed := [3, 2, 4, 1], nRead := 4, nMatched := 3, nIgnored := 0 } := by
+    rfl
+  exact ⟨_, (applyAll_lpath _ _ _ h).reach .refl, rfl, rfl⟩
 
 /-- With two workers the order is NOT preserved: one source, two batches `[1]`, `[2]`, everything matched – the
     second worker can overtake the first, and the consumer receives `2` before `1`. -/
